@@ -51,6 +51,14 @@ CodedPlainUnchecked(kind, a, b, L) ==
   IF ~LS(L) \/ ~RemNeg(kind, a, b, L) THEN q
   ELSE Wrap(ZAdd(q, Wrap(Adj(b, L), L)), L)
 
+\* plain div_euclid[_int] as coded, in a build WITH overflow checks / debug assertions: where it panics
+\*   (self / rhs) overflows, from_num(1) does not fit, or q -+ 1 overflows
+CodedPlainPanics(kind, a, b, L) ==
+  LET Q == TQuot(kind, a, b, L) IN
+  \/ ~Fits(Q, L)
+  \/ /\ LS(L) /\ RemNeg(kind, a, b, L)
+     /\ (~Fits(OneU(L), L) \/ ~Fits(ZAdd(Rtz(Q, L), Adj(b, L)), L))
+
 \* does the logged quintuple of forms equal the as-coded design?   (b # 0)
 \* The plain form is compared only for the unchecked profile; with overflow checks it may panic.
 CodedFormsMatch(kind, o, a, b, L, pr) ==
